@@ -101,6 +101,9 @@ class Sandbox(object):
         self.mpirun = self.root + '/bin/mpirun'
         write_x(self.probe, PROBE.replace('@PROBE_DIR@', self.probe_dir)); write_x(self.cmd, CMD.replace('@PROBE_DIR@', self.probe_dir))
         write_x(self.mpirun, MPIRUN)
+        # stand-in for radical-pilot-control (the exec script reports `task_startup_done` through it): records its call
+        self.ctrl = self.root + '/bin/ctrl'
+        write_x(self.ctrl, "#!/bin/sh\necho \"rank=${RP_RANK:--} $*\" >> '%s/ctrl.log'\nexit 0\n" % self.probe_dir)
         # a program of the same name as the probe on the AGENT's search path (the agent's virtualenv has a `python`, too):
         # a task that describes its executable by name and its own PATH must not end up running this one
         os.makedirs(self.root + '/decoy', exist_ok=True)
